@@ -20,12 +20,12 @@ type c07Case struct {
 }
 
 func genC07(t *rapid.T) *c07Case {
-	cfg := gen.ImgCfg{MaxSide: 48, BigChance: 3, BigSide: 150}
+	cfg := gen.ImgCfg{MaxSide: 48, BigChance: 3, BigSide: 150, ThinPermille: 8}
 	if tierThorough() {
 		cfg = gen.ImgCfg{MaxSide: 72, BigChance: 3, BigSide: 320}
 	}
 	// bias toward pictures that do carry transparency
-	cfg.Alphas = []string{"opaque", "binary", "binary", "levels", "levels", "gradient", "noise", "transparent", "transp-colored", "semi-flat"}
+	cfg.Alphas = []string{"opaque", "binary", "binary", "levels", "levels", "gradient", "noise", "transparent", "transp-colored", "semi-flat", "late", "early"}
 	c := &c07Case{Img: gen.DrawImg(t, cfg), Opts: gen.DrawLossyOpts(t, false)}
 	return c
 }
